@@ -28,3 +28,25 @@ def run(ck):
                 if not any('m' in p for p in case.pat.values()):
                     continue
                 table_rule(ck, f'C02.{name}', case, spec, scope='missing')
+    # masked-array carrier: "a masked element" is a missing observation too
+    from ..check import Check
+    from ..qc import fn_key
+    for name in TESTS:
+        gen = cases.ALL[name]
+        sub = Check(ck.pid, ck.tier, ck.seed)
+        sub._runner = ck._runner
+        n = 0
+        for case, spec in gen(ck.tier, carrier='masked'):
+            if spec.rejects or not any('m' in p for p in case.pat.values()) or case.n > 5:
+                continue
+            table_rule(sub, f'C02.{name}', case, spec, scope='missing')
+            n += 1
+            if n >= 40:
+                break
+        ck.evaluations += sub.evaluations
+        ck.distinct.update(sub.distinct)
+        if sub.violations:
+            ck.violate('C02.masked-array', f'{fn_key(case)}:masked-array:mask-dropped-by-normaliser',
+                       f'{name}: a masked element of a numpy masked-array input is reported as evaluated; e.g. {sub.violations[0]["what"][:260]}')
+        else:
+            ck.hold('C02.masked-array', name)
